@@ -16,7 +16,7 @@ func corrC16(r *Run) {
 	r.Import("Model.ConnRun")
 	r.PerShard(10)
 	r.Rule = "inbound histories of 3..14 frames mixing unsolicited PDUs of every registered type, responses to 0..3 outstanding Submit calls (Write held or returned), " +
-		"repeated responses, PDUs reusing the sequence number of a Submit that gave up through its own context, undecodable bodies behind an intact header " +
+		"repeated responses, PDUs reusing the sequence number of a Submit that gave up through its own context or whose request was refused (Marshal error at each stage, failing transport Write), undecodable bodies behind an intact header " +
 		"(positive and non-positive sequence numbers), frames over 4096 octets of which only a prefix is decoded (undecodable; non-zero status with a body), ended by nothing / EOF / a fatal frame; " +
 		"frames made readable singly or several at once, each in one of six fragmentation classes or split over two forced events; " +
 		"fast (always receiving) and slow (receiving on grant) consumer; non-trivial = history with at least one undecodable frame followed by a deliverable PDU; distinct by event list"
@@ -99,11 +99,13 @@ func c16Scenario(r *Run, ts []pduType, idx int) {
 	n := 3 + rng.Intn(12)
 	for i := 0; i < n && w.Stuck == ""; i++ {
 		var f []byte
-		k := rng.Intn(12)
+		k := rng.Intn(13)
 		if idx%8 == 1 && i == 0 {
 			k = 7
 		} else if idx%8 == 2 && i == 0 {
 			k = 8
+		} else if idx%8 == 3 && i <= 1 {
+			k = 12
 		}
 		switch {
 		case k < 4:
@@ -191,6 +193,36 @@ func c16Scenario(r *Run, ts []pduType, idx int) {
 				f = genOversizeFrame(rng, s, false)
 				wantApp = append(wantApp, Delivery{5, s})
 				hist["item/status-with-body-over-4096"]++
+			}
+		case k == 12:
+			// a Submit that ends WITHOUT ever having been sent — its PDU refused by Marshal at some stage, or the transport's
+			// Write failing — leaves nothing behind: a PDU of the peer (request or response type) that carries its sequence
+			// number is an ordinary unsolicited PDU
+			flush()
+			s := fresh()
+			sp := CallSpec{Kind: "submit", Seq: s}
+			how := "write-fails"
+			if rng.Intn(3) == 0 {
+				sp.P, sp.WriteFails = genSendable(rng, ts, true, 600), true
+			} else {
+				how = refusedStages[rng.Intn(len(refusedStages))]
+				sp.P = genRefused(rng, how)
+				if expectedFrame(sp.P, s) != nil {
+					continue // (this tree accepts it)
+				}
+			}
+			releaseAll() // (it may have to wait for the transport behind an open Write)
+			c := w.Go(50+i, sp)[0]
+			if !w.Returned(c) || c.Err == nil {
+				r.Fail("dispatch/refused-request", "a Submit whose request cannot be sent did not return an error", "sched "+w.Script(), c.Class(), "err")
+				continue
+			}
+			f = genUnsolicited(rng, ts, s)
+			_, id, q := classifyFrame(f)
+			wantApp = append(wantApp, Delivery{id, q})
+			hist["item/sequence-of-a-refused-request-reused/"+how]++
+			if sawBad {
+				badThenGood = true
 			}
 		default:
 			s := fresh()
